@@ -51,11 +51,13 @@ type Item struct {
 func (i Item) Name() string { return fmt.Sprintf("%s-k%d-t%d", i.Sig, i.Key, i.T) }
 
 const (
-	day0        = int64(1699920000) // 2023-11-14T00:00:00Z
-	SlotsPerDay = 2
-	SlotSec     = int64(3600)
-	slotBase    = int64(10 * 3600) // first slot of a day at 10:00 UTC
+	day0     = int64(1699920000) // 2023-11-14T00:00:00Z
+	SlotSec  = int64(3600)
+	slotBase = int64(10 * 3600) // first slot of a day at 10:00 UTC
 )
+
+// SlotsPerDay is set from the model constants of the history / trace being replayed.
+var SlotsPerDay = 2
 
 func slotSec(t int) int64 {
 	return day0 + int64(t/SlotsPerDay)*86400 + slotBase + int64(t%SlotsPerDay)*SlotSec
@@ -278,6 +280,24 @@ func pushRequest(sig string, items []Item) pushReq {
 	panic("unknown signal " + sig)
 }
 
+// itemAt: the item of signal sig whose key label is "k<key>" and whose timestamp (in units of 1/unit s) is a slot time.
+func itemAt(sig, keyLabel, ts string, unit int64) (Item, bool) {
+	if !reKey.MatchString(keyLabel) {
+		return Item{}, false
+	}
+	k, _ := strconv.Atoi(keyLabel[1:])
+	n, err := strconv.ParseInt(ts, 10, 64)
+	if err != nil {
+		return Item{}, false
+	}
+	for t := 0; t < 16; t++ {
+		if slotSec(t)*unit == n {
+			return Item{sig, k, t}, true
+		}
+	}
+	return Item{}, false
+}
+
 func metricValue(it Item) float64 { return float64(1000*it.Key+it.T) + 0.5 }
 
 // push sends the request and waits until every INSERT it caused has returned (the answer may be written before the
@@ -348,6 +368,28 @@ func (x *X) postJSON(path string, body any) (int, string) {
 
 const profType = "process_cpu:cpu:nanoseconds:cpu:nanoseconds"
 
+// emptyScanArtefact: chbridge hands an empty ClickHouse array to database/sql as []interface{} which the reader's typed
+// scan target refuses; clickhouse-go delivers a typed empty slice. Only an EMPTY result takes this path.
+func emptyScanArtefact(code int, body string) bool {
+	return code == 500 && strings.Contains(body, "unsupported Scan, storing driver.Value type []interface {}")
+}
+
+// weightNames decodes a sum of profile weights (16^t per profile) into the profiles summed; a profile counted n times
+// yields its name n times (a duplicate), a residue that is no sum of weights yields a "?weight" entry.
+func weightNames(key int, total int64) []string {
+	var names []string
+	for t := 0; t < 15; t++ {
+		n := (total >> uint(4*t)) & 15
+		for j := int64(0); j < n; j++ {
+			names = append(names, Item{"profiles", key, t}.Name())
+		}
+	}
+	if total < 0 {
+		names = append(names, fmt.Sprintf("?weight:%d", total))
+	}
+	return names
+}
+
 // Endpoints: name -> (signal, grain)
 type epInfo struct {
 	Sig   string
@@ -355,28 +397,31 @@ type epInfo struct {
 }
 
 var endpoints = map[string]epInfo{
-	"loki.query_range":   {"logs", "item"},
-	"loki.label_values":  {"logs", "key"},
-	"loki.series":        {"logs", "key"},
-	"prom.query_range":   {"metrics", "item"},
-	"prom.series":        {"metrics", "key"},
-	"prom.label_values":  {"metrics", "key"},
-	"tempo.by_id":        {"traces", "item"},
-	"tempo.search_tags":  {"traces", "key"},
-	"tempo.traceql":      {"traces", "item"},
-	"tempo.tag_values":   {"traces", "key"},
-	"prof.select":        {"profiles", "item"},
-	"prof.series":        {"profiles", "key"},
-	"prof.label_values":  {"profiles", "key"},
-	"prof.profile_types": {"profiles", "key"},
+	"loki_query_range":   {"logs", "item"},
+	"loki_label_values":  {"logs", "key"},
+	"loki_series":        {"logs", "key"},
+	"prom_query_range":   {"metrics", "item"},
+	"prom_series":        {"metrics", "key"},
+	"prom_label_values":  {"metrics", "key"},
+	"tempo_by_id":        {"traces", "item"},
+	"tempo_search_tags":  {"traces", "key"},
+	"tempo_traceql":      {"traces", "item"},
+	"tempo_tag_values":   {"traces", "key"},
+	"prof_select":        {"profiles", "item"},
+	"prof_select_series": {"profiles", "item"},
+	"prof_series":        {"profiles", "key"},
+	"prof_label_values":  {"profiles", "key"},
+	"prof_profile_types": {"profiles", "key"},
 }
 
 // query runs endpoint ep for key over window w and decodes the answer into item names / keys.
 func (x *X) query(ep string, key int, w Win) Answer {
-	fromS, toS := slotSec(w.From), slotSec(w.To)+1
+	// the window [slot(From) - 60 s, slot(To) + 60 s): every item of the slots From..To lies strictly inside, items of
+	// other slots (>= 1 h away) strictly outside -- window EDGE semantics are the subject of C13, not of this check
+	fromS, toS := slotSec(w.From)-60, slotSec(w.To)+60
 	sel := fmt.Sprintf(`{x02="k%d"}`, key)
 	switch ep {
-	case "loki.query_range":
+	case "loki_query_range":
 		v := url.Values{"query": {sel}, "start": {fmt.Sprint(fromS * 1e9)}, "end": {fmt.Sprint(toS * 1e9)}, "limit": {"1000"}}
 		code, body := x.W.Get("/loki/api/v1/query_range?" + v.Encode())
 		var doc struct {
@@ -399,6 +444,8 @@ func (x *X) query(ep string, key int, w Win) Answer {
 				if len(val) >= 2 {
 					if m := reItem.FindString(val[1]); m != "" {
 						names = append(names, m)
+					} else if it, ok := itemAt("metrics", r.Stream["x02"], val[0], 1e9); ok && val[1] == "" {
+						names = append(names, it.Name()) // a metric sample (empty string column) returned as a log line
 					} else {
 						names = append(names, "?line:"+val[1])
 					}
@@ -406,10 +453,10 @@ func (x *X) query(ep string, key int, w Win) Answer {
 			}
 		}
 		return setAnswer(code, body, names)
-	case "loki.label_values", "prom.label_values":
+	case "loki_label_values", "prom_label_values":
 		var code int
 		var body string
-		if ep == "loki.label_values" {
+		if ep == "loki_label_values" {
 			v := url.Values{"start": {fmt.Sprint(fromS * 1e9)}, "end": {fmt.Sprint(toS * 1e9)}}
 			code, body = x.W.Get("/loki/api/v1/label/x02/values?" + v.Encode())
 		} else {
@@ -426,10 +473,10 @@ func (x *X) query(ep string, key int, w Win) Answer {
 			return Answer{Code: code, Items: []string{}, Raw: clip(body), Note: "undecodable: " + err.Error()}
 		}
 		return setAnswer(code, body, doc.Data)
-	case "loki.series", "prom.series":
+	case "loki_series", "prom_series":
 		var code int
 		var body string
-		if ep == "loki.series" {
+		if ep == "loki_series" {
 			v := url.Values{"match[]": {sel}, "start": {fmt.Sprint(fromS * 1e9)}, "end": {fmt.Sprint(toS * 1e9)}}
 			code, body = x.W.Get("/loki/api/v1/series?" + v.Encode())
 		} else {
@@ -450,8 +497,10 @@ func (x *X) query(ep string, key int, w Win) Answer {
 			names = append(names, s["x02"])
 		}
 		return setAnswer(code, body, names)
-	case "prom.query_range":
-		v := url.Values{"query": {"x02m" + sel}, "start": {fmt.Sprint(fromS)}, "end": {fmt.Sprint(toS - 1)}, "step": {fmt.Sprint(SlotSec)}}
+	case "prom_query_range":
+		// evaluation grid = the slots themselves (a sample is returned at the step of its own timestamp; the 5-minute
+		// lookback cannot reach the neighbouring slot)
+		v := url.Values{"query": {"x02m" + sel}, "start": {fmt.Sprint(slotSec(w.From))}, "end": {fmt.Sprint(slotSec(w.To))}, "step": {fmt.Sprint(SlotSec)}}
 		code, body := x.W.Get("/api/v1/query_range?" + v.Encode())
 		var doc struct {
 			Data struct {
@@ -480,6 +529,10 @@ func (x *X) query(ep string, key int, w Win) Answer {
 				}
 				n := int(f)
 				it := Item{"metrics", n / 1000, n % 1000}
+				if lg, ok := itemAt("logs", r.Metric["x02"], fmt.Sprint(int64(val[0].(float64))), 1); ok && f == 0 {
+					names = append(names, lg.Name()) // a log row (value column 0) returned as a metric sample
+					continue
+				}
 				if metricValue(it) != f {
 					names = append(names, "?value:"+fmt.Sprint(val[1]))
 					continue
@@ -494,8 +547,11 @@ func (x *X) query(ep string, key int, w Win) Answer {
 			}
 		}
 		return setAnswer(code, body, names)
-	case "tempo.by_id":
+	case "tempo_by_id":
 		code, body := x.W.Get(fmt.Sprintf("/api/traces/%s/json?start=%d&end=%d", traceHex(key), fromS, toS))
+		if code == 404 {
+			return Answer{Code: 200, Items: []string{}, Raw: clip(body), Note: ""}
+		}
 		if code != 200 {
 			return Answer{Code: code, Items: []string{}, Raw: clip(body)}
 		}
@@ -525,9 +581,9 @@ func (x *X) query(ep string, key int, w Win) Answer {
 			}
 		}
 		return setAnswer(code, body, names)
-	case "tempo.search_tags", "tempo.traceql":
+	case "tempo_search_tags", "tempo_traceql":
 		v := url.Values{"limit": {"100"}, "start": {fmt.Sprint(fromS)}, "end": {fmt.Sprint(toS)}}
-		if ep == "tempo.search_tags" {
+		if ep == "tempo_search_tags" {
 			v.Set("tags", fmt.Sprintf("x02=k%d", key))
 		} else {
 			v.Set("q", fmt.Sprintf(`{.x02="k%d"}`, key))
@@ -567,7 +623,7 @@ func (x *X) query(ep string, key int, w Win) Answer {
 				names = append(names, "?trace:"+tr.TraceID)
 				continue
 			}
-			if ep == "tempo.search_tags" {
+			if ep == "tempo_search_tags" {
 				names = append(names, fmt.Sprintf("k%d", k))
 				continue
 			}
@@ -586,58 +642,83 @@ func (x *X) query(ep string, key int, w Win) Answer {
 			}
 		}
 		return setAnswer(code, body, names)
-	case "tempo.tag_values":
-		v := url.Values{"start": {fmt.Sprint(fromS)}, "end": {fmt.Sprint(toS)}}
-		code, body := x.W.Get("/api/v2/search/tag/x02/values?" + v.Encode())
+	case "tempo_tag_values":
+		code, body := x.W.Get("/api/search/tag/x02/values")
 		if code != 200 {
 			return Answer{Code: code, Items: []string{}, Raw: clip(body)}
 		}
 		var doc struct {
-			TagValues []struct {
-				Value string `json:"value"`
-			} `json:"tagValues"`
+			TagValues []string `json:"tagValues"`
 		}
 		if err := json.Unmarshal([]byte(body), &doc); err != nil {
 			return Answer{Code: code, Items: []string{}, Raw: clip(body), Note: "undecodable: " + err.Error()}
 		}
-		var names []string
-		for _, tv := range doc.TagValues {
-			names = append(names, tv.Value)
-		}
+		names := doc.TagValues
 		return setAnswer(code, body, names)
-	case "prof.select":
+	case "prof_select":
 		code, body := x.postJSON(prof.QuerierService_SelectMergeStacktraces_FullMethodName, map[string]any{
 			"profile_typeID": profType, "label_selector": sel, "start": fromS * 1000, "end": toS * 1000})
+		if emptyScanArtefact(code, body) {
+			return Answer{Code: 200, Items: []string{}, Raw: clip(body), Note: "empty result (chbridge delivers an empty array untyped)"}
+		}
 		if code != 200 {
 			return Answer{Code: code, Items: []string{}, Raw: clip(body)}
 		}
 		var doc struct {
 			Flamegraph struct {
-				Total any `json:"total"`
+				Levels []struct {
+					Values []string `json:"values"`
+				} `json:"levels"`
 			} `json:"flamegraph"`
 		}
 		if err := json.Unmarshal([]byte(body), &doc); err != nil {
 			return Answer{Code: code, Items: []string{}, Raw: clip(body), Note: "undecodable: " + err.Error()}
 		}
-		total, err := strconv.ParseInt(strings.Trim(fmt.Sprint(doc.Flamegraph.Total), `"`), 10, 64)
-		if doc.Flamegraph.Total == nil {
-			total, err = 0, nil
+		// every profile is one stack whose leaf carries the profile's weight as self value: the sum of the self values of
+		// the merged flame graph is the sum of the weights of the merged profiles
+		total := int64(0)
+		for _, l := range doc.Flamegraph.Levels {
+			for i := 2; i < len(l.Values); i += 4 {
+				n, err := strconv.ParseInt(l.Values[i], 10, 64)
+				if err != nil {
+					return Answer{Code: code, Items: []string{}, Raw: clip(body), Note: "undecodable self value"}
+				}
+				total += n
+			}
 		}
-		if f, ok := doc.Flamegraph.Total.(float64); ok {
-			total, err = int64(f), nil
+		return setAnswer(code, body, weightNames(key, total))
+	case "prof_select_series":
+		code, body := x.postJSON(prof.QuerierService_SelectSeries_FullMethodName, map[string]any{
+			"profile_typeID": profType, "label_selector": sel, "group_by": []string{"x02"}, "step": float64(SlotSec), "start": fromS * 1000, "end": toS * 1000})
+		if emptyScanArtefact(code, body) {
+			return Answer{Code: 200, Items: []string{}, Raw: clip(body), Note: "empty result (chbridge delivers an empty array untyped)"}
 		}
-		if err != nil {
-			return Answer{Code: code, Items: []string{}, Raw: clip(body), Note: "undecodable total"}
+		if code != 200 {
+			return Answer{Code: code, Items: []string{}, Raw: clip(body)}
+		}
+		var doc struct {
+			Series []struct {
+				Points []struct {
+					Value any `json:"value"`
+				} `json:"points"`
+			} `json:"series"`
+		}
+		if err := json.Unmarshal([]byte(body), &doc); err != nil {
+			return Answer{Code: code, Items: []string{}, Raw: clip(body), Note: "undecodable: " + err.Error()}
 		}
 		var names []string
-		for t := 0; t < 15; t++ {
-			n := (total >> uint(4*t)) & 15
-			for j := int64(0); j < n; j++ {
-				names = append(names, Item{"profiles", key, t}.Name())
+		for _, sr := range doc.Series {
+			for _, pt := range sr.Points {
+				f, err := strconv.ParseFloat(strings.Trim(fmt.Sprint(pt.Value), `"`), 64)
+				if err != nil {
+					names = append(names, "?point:"+fmt.Sprint(pt.Value))
+					continue
+				}
+				names = append(names, weightNames(key, int64(f))...)
 			}
 		}
 		return setAnswer(code, body, names)
-	case "prof.series":
+	case "prof_series":
 		code, body := x.postJSON(prof.QuerierService_Series_FullMethodName, map[string]any{
 			"matchers": []string{sel}, "label_names": []string{"x02"}, "start": fromS * 1000, "end": toS * 1000})
 		if code != 200 {
@@ -663,7 +744,7 @@ func (x *X) query(ep string, key int, w Win) Answer {
 			}
 		}
 		return setAnswer(code, body, names)
-	case "prof.label_values":
+	case "prof_label_values":
 		code, body := x.postJSON(prof.QuerierService_LabelValues_FullMethodName, map[string]any{"name": "x02", "start": fromS * 1000, "end": toS * 1000})
 		if code != 200 {
 			return Answer{Code: code, Items: []string{}, Raw: clip(body)}
@@ -675,7 +756,7 @@ func (x *X) query(ep string, key int, w Win) Answer {
 			return Answer{Code: code, Items: []string{}, Raw: clip(body), Note: "undecodable: " + err.Error()}
 		}
 		return setAnswer(code, body, doc.Names)
-	case "prof.profile_types":
+	case "prof_profile_types":
 		code, body := x.postJSON(prof.QuerierService_ProfileTypes_FullMethodName, map[string]any{"start": fromS * 1000, "end": toS * 1000})
 		if code != 200 {
 			return Answer{Code: code, Items: []string{}, Raw: clip(body)}
@@ -690,7 +771,14 @@ func (x *X) query(ep string, key int, w Win) Answer {
 		}
 		var names []string
 		for _, p := range doc.ProfileTypes {
-			names = append(names, p.ID)
+			if p.ID == "" {
+				continue // the placeholder the controller returns when no type exists
+			}
+			if p.ID == profType {
+				names = append(names, "k0") // the model's marker for "the profile type is listed"
+			} else {
+				names = append(names, "?type:"+p.ID)
+			}
 		}
 		return setAnswer(code, body, names)
 	}
